@@ -64,6 +64,7 @@ struct ghost {
   int child_reports;    /* writes to the error pipe (child side)              */
   int child_report;     /* last value written there                           */
   int exit_code;        /* argument of _exit (child side)                     */
+  int exit_moved_to;    /* duplicate of the exit handle above the standard streams, or -1 */
   bool exited;
   /* ---- clock ---------------------------------------------------------------- */
   int64_t now;          /* virtual CLOCK_REALTIME in ms, monotone             */
@@ -114,7 +115,7 @@ struct ghost_cfg {
   /* ---- launch request (checked by the execvp contract, child side) ----------- */
   uint8_t want_obj[3];       /* object each standard stream must refer to      */
   uint8_t want_acc[3];       /* 1: must be readable, 2: must be writable, 0: any */
-  int want_exit_fd;
+  int want_exit_fd; uint8_t want_exit_obj;  /* the exit handle and the object behind it */
   const char *want_file; char *const *want_argv; char **want_env;
   int want_cwd_id;
   /* ---- stop-sequence monitor (C07/C15): the expected OS-level steps ----------- */
@@ -131,6 +132,7 @@ struct ghost_cfg {
 
 extern struct ghost g;
 extern struct ghost_cfg gc;
+
 extern char **environ;
 
 /* Branch-free (no && / || / ?:): contract clauses built from these compile to
